@@ -260,6 +260,20 @@ func judgeStability(b []byte) (o stOutcome) {
 		return
 	}
 	tn := typeName(v1)
+	// A relay's receive buffer is reused for the next datagram before the telegram is re-encoded:
+	// the decoded value must not refer to the input octets. v0 is decoded from an untouched copy.
+	var v0 knxnet.Service
+	in0 := append([]byte(nil), b...)
+	if p, _, _ := guard(func() { _, err = knxnet.Unpack(in0, &v0) }); p || err != nil {
+		o.status = "decoder-not-deterministic"
+		return
+	}
+	for i := range in {
+		in[i] ^= 0xFF
+	}
+	if where, detail := diffService(v0, v1); where != "" {
+		return fail("decoded-value-aliases-input:"+where, "the %s decoded from a buffer changes when that buffer is overwritten afterwards (a receiver reusing its buffer for the next datagram alters the telegram already delivered): %s", tn, detail)
+	}
 	var enc []byte
 	if p, msg, site := guard(func() { enc = knxnet.AllocAndPack(sp) }); p {
 		return fail("panic:"+site, "re-encoding the decoded %s panicked in %s: %s", tn, site, msg)
